@@ -136,6 +136,19 @@ func (x *Exec) invoke(fr *Frame, ins ssa.Instruction, c *ssa.CallCommon, st *Sta
 		x.panicPoint(st, ins.Pos(), "dyncall:"+c.Method.Name(), nil)
 	}
 	x.note("dynamic call %s.%s: result arbitrary, no modelled state changed, no panic (assumed)", shortTypeString(c.Value.Type()), c.Method.Name())
+	if x.target != nil && contains(x.target.GhostResults, c.Method.Name()) && x.specDepth == 0 && len(c.Args) == 0 && c.Signature().Results().Len() == 1 {
+		// named result: the k-th opaque call of this method in the run
+		if x.dynCount == nil {
+			x.dynCount = map[string]int{}
+		}
+		k := x.dynCount[c.Method.Name()]
+		x.dynCount[c.Method.Name()] = k + 1
+		rt := c.Signature().Results().At(0).Type()
+		r := x.w.Fun("ghostdyn_"+c.Method.Name(), x.w.sortOf(rt), recv, ts.IntLit(int64(k)))
+		x.assume(x.w.validFacts(r, rt, st.alloc, 0))
+		x.assume(x.w.objectFacts(r, rt, st.alloc))
+		return r
+	}
 	return x.havocResult(st, "invoke_"+c.Method.Name(), c.Signature().Results())
 }
 
@@ -496,6 +509,20 @@ func (x *Exec) intrinsic(fr *Frame, ins ssa.Instruction, fn *ssa.Function, args 
 			entry = x.entryAllocs[n-1]
 		}
 		return x.w.intLt(entry, a)
+	case "DynResult":
+		// the value returned by the k-th opaque dynamic call of a method (see `ghostresult`)
+		mname := x.constString(ins, 0)
+		recv, ok1 := args[1].(*Term)
+		kt, ok2 := args[2].(*Term)
+		if !ok1 || !ok2 {
+			unsup("DynResult arguments")
+		}
+		kv, isConst := kt.bvConst()
+		if !isConst {
+			unsup("DynResult: the call number must be a constant")
+		}
+		rt := fn.Signature.Results().At(0).Type()
+		return x.w.Fun("ghostdyn_"+mname, x.w.sortOf(rt), recv, ts.IntLit(int64(kv)))
 	case "Visited":
 		// key k has been produced by the latest range loop over map m
 		m, k := args[0].(*Term), args[1].(*Term)
